@@ -61,6 +61,10 @@ def data_form(a, form):
     a = np.asarray(a, dtype=float)
     if form == "uint8":
         return np.abs(a).astype(np.uint8)
+    if form in ("negzero", "subnormal"):        # every zero replaced by -0.0 / by the smallest subnormal
+        b = a.copy()
+        b[b == 0] = -0.0 if form == "negzero" else 5e-324
+        return b
     if form in ("float32", "int64", "int32"):
         return a.astype(form)
     if form == "fortran":
@@ -72,8 +76,28 @@ def data_form(a, form):
     raise ValueError(form)
 
 
-REG_FORMS = ["float32", "int64", "int32", "uint8", "fortran", "strided"]
+REG_FORMS = ["float32", "int64", "int32", "uint8", "fortran", "strided", "negzero", "subnormal"]
 FLOAT_FORMS = ["float32", "fortran", "strided"]      # integer arrays cannot hold data in other units
+
+
+# Published argument names and order of the pinned tree (frozen here on purpose: NOT read from the live signatures,
+# so that an inserted / renamed / re-ordered parameter shows up as a failing call form).
+SIG = {"CPRegressor": ["weight_rank", "tol", "reg_W", "n_iter_max", "random_state", "verbose"],
+       "TuckerRegressor": ["weight_ranks", "tol", "reg_W", "n_iter_max", "random_state", "verbose"],
+       "CP_PLSR": ["n_components", "tol", "n_iter_max", "random_state", "verbose"],
+       "reg.fit": ["X", "y"], "reg.predict": ["X"],
+       "pls.fit": ["X", "Y"], "pls.predict": ["X"], "pls.transform": ["X", "Y"], "pls.fit_transform": ["X", "Y"], "pls.score": ["X", "Y"]}
+
+
+def invoke(fn, sig, values, form):
+    """Call fn with `values` (name -> value, a prefix of the published list SIG[sig]) in the given call form."""
+    names = [n for n in SIG[sig] if n in values]
+    assert names == SIG[sig][:len(names)] and len(names) == len(values)
+    if form == "pos":
+        return fn(*[values[n] for n in names])
+    if form == "kw":
+        return fn(**{n: values[n] for n in names})
+    return fn(values[names[0]], **{n: values[n] for n in names[1:]})
 
 
 def layout(a, lay):
@@ -147,12 +171,18 @@ def exec_reg(case):
     blank = {"weight": EMPTY, "pred": EMPTY, "vec": EMPTY, "dense": EMPTY, "factors": {"fs": [], "w": []}, "forms": [], "refit": {"raised": True},
              "prec": {"wd": 0, "vd": 0, "fdtype": ""}}
     tol, nmax, _ = REGOPT[c["opt"]]
+    form = c.get("call", "std")
+    ev["params_ok"] = True
     try:
         if c["model"] == "cp":
-            est = CPRegressor(weight_rank=c["rank"], reg_W=reg_form(c["reg"] / 10.0, c["ff"]), n_iter_max=nmax, tol=tol, random_state=rs, verbose=0)
+            given = {"weight_rank": c["rank"], "tol": tol, "reg_W": reg_form(c["reg"] / 10.0, c["ff"]), "n_iter_max": nmax, "random_state": rs, "verbose": 0}
+            est = invoke(CPRegressor, "CPRegressor", given, form)
         else:
-            est = TuckerRegressor(weight_ranks=list(c["ranks"]), reg_W=reg_form(c["reg"] / 10.0, c["ff"]), n_iter_max=nmax, tol=tol, random_state=rs, verbose=0)
-        est.fit(tl.tensor(fit_form(X * ux, c["ff"])), tl.tensor(fit_form_y(y * uy, c["ff"])))
+            given = {"weight_ranks": list(c["ranks"]), "tol": tol, "reg_W": reg_form(c["reg"] / 10.0, c["ff"]), "n_iter_max": nmax, "random_state": rs, "verbose": 0}
+            est = invoke(TuckerRegressor, "TuckerRegressor", given, form)
+        got = est.get_params()
+        ev["params_ok"] = bool(list(got) == SIG["CPRegressor" if c["model"] == "cp" else "TuckerRegressor"] and all(got[k] is given[k] or got[k] == given[k] for k in given))
+        invoke(est.fit, "reg.fit", {"X": tl.tensor(fit_form(X * ux, c["ff"])), "y": tl.tensor(fit_form_y(y * uy, c["ff"]))}, form)
     except Exception as ex:
         ev.update(blank)
         ev["fit"] = {"raised": True, "exc": type(ex).__name__, "msg": str(ex)[:120]}
@@ -171,7 +201,7 @@ def exec_reg(case):
             G, fs = est.tucker_weight_
             ev["factors"] = {"fs": [qt(f) for f in fs], "core": qt(G)} if based else {"fs": [], "w": []}
             ev["dense"] = qt(np.asarray(tucker_to_tensor((G, fs))) * wu)
-        ev["pred"] = qt(np.asarray(est.predict(tl.tensor(Xnew * ux))) / uy)
+        ev["pred"] = qt(np.asarray(invoke(est.predict, "reg.predict", {"X": tl.tensor(Xnew * ux)}, form)) / uy)
         # the same kind of samples in other dtypes / layouts: 4 random samples + the last one-hot sample
         sub = np.concatenate([Xnew[:4], Xnew[-1:]], axis=0)
         forms = []
@@ -188,6 +218,11 @@ def exec_reg(case):
         X2, y2, _, _ = draw_reg(dict(c, k=c["k"] + 1000), case["seed"])
         rf = {"raised": False, "x": it(sub), "weight": EMPTY, "vec": EMPTY, "dense": EMPTY, "pred": EMPTY}
         try:
+            try:                                            # a call that fails (one target too many): caught, object used again
+                est.fit(tl.tensor(X2 * ux), tl.tensor(np.concatenate([y2, y2[:1]], axis=0) * uy))
+                rf["badfit_raised"] = False
+            except Exception:
+                rf["badfit_raised"] = True
             est.set_params(reg_W=2.0 * c["reg"] / 10.0)
             est.fit(tl.tensor(fit_form(X2 * ux, c["ff"])), tl.tensor(fit_form_y(y2 * uy, c["ff"])))
             rf["weight"] = qt(np.asarray(est.weight_tensor_) * wu)
@@ -210,10 +245,10 @@ def draw_pls(c, seed):
     """Well separated synthetic data: orthonormal scores, strengths 6 / 3 / 1.5, small noise."""
     xs, n, ny = tuple(c["xs"]), c["n"], c["ny"]
     rng = _rng(seed, 31, n, ny, c["nc"], c["k"], PLSOPT[c["opt"]][2], c.get("ux", 0) + 100, c.get("uy", 0) + 100,
-               ["C", "F", "moved", "strided", "ro"].index(c.get("lay", "C")), ["generic", "contrast", "zerofeat"].index(c.get("dat", "generic")), *xs)
-    K = 3
+               ["C", "F", "moved", "strided", "ro"].index(c.get("lay", "C")), ["generic", "contrast", "zerofeat", "selfy"].index(c.get("dat", "generic")), *xs)
+    K = min(3, n)
     T_, _ = np.linalg.qr(rng.standard_normal((n, K)))
-    sig = np.array([6.0, 3.0, 1.5])
+    sig = np.array([6.0, 3.0, 1.5])[:K]
     X = np.zeros((n,) + xs)
     for k in range(K):
         comp = T_[:, k] * sig[k]
@@ -232,6 +267,8 @@ def draw_pls(c, seed):
     Y = (T_ * sig) @ rng.standard_normal((K, cols)) + 0.01 * rng.standard_normal((n, cols))
     if int(np.prod(xs)) > 50000:
         Y = rng.standard_normal(Y.shape)
+    if c.get("dat") == "selfy":           # the targets are the samples
+        Y = X.copy()
     if ny == 0:
         Y = Y[:, 0]
     mtest = 4
@@ -247,18 +284,19 @@ def draw_pls(c, seed):
 def _new_pls(c):
     from tensorly.regression.cp_plsr import CP_PLSR
     tol, nmax, _ = PLSOPT[c["opt"]]
-    return CP_PLSR(c["nc"], tol=tol, n_iter_max=nmax)
+    return invoke(CP_PLSR, "CP_PLSR", {"n_components": c["nc"], "tol": tol, "n_iter_max": nmax, "random_state": None, "verbose": False},
+                  c.get("call", "std"))
 
 
-def _pls_record(est, Xtrain, Xt, ux=1.0, uy=1.0):
+def _pls_record(est, Xtrain, Xt, ux=1.0, uy=1.0, form="std"):
     """Scores in units of X, predictions in units of Y (exact power-of-two rescaling); loadings are unit-free."""
     import tensorly as tl
     return {"raised": False,
             "scores": qt(np.asarray(est.X_factors[0]) / ux),
             "loads": [qt(f) for f in est.X_factors[1:]],
             "yload": qt(est.Y_factors[1]),
-            "transform": qt(np.asarray(est.transform(tl.tensor(Xtrain.copy()))) / ux),
-            "pred": qt(np.asarray(est.predict(tl.tensor(Xt.copy()))) / uy)}
+            "transform": qt(np.asarray(invoke(est.transform, "pls.transform", {"X": tl.tensor(Xtrain.copy())}, form)) / ux),
+            "pred": qt(np.asarray(invoke(est.predict, "pls.predict", {"X": tl.tensor(Xt.copy())}, form)) / uy)}
 
 
 def _fit_pls(c, X, Y, Xtrain_for_transform, Xt, extra=False, perm=None, kbad=0, ux=1.0, uy=1.0):
@@ -269,8 +307,10 @@ def _fit_pls(c, X, Y, Xtrain_for_transform, Xt, extra=False, perm=None, kbad=0, 
     qx = lambda a: qt(np.asarray(a) / ux)
     qy = lambda a: qt(np.asarray(a) / uy)
     try:
-        est = _new_pls(c).fit(tl.tensor(layout(X.copy(), lay)), tl.tensor(layout(Y.copy(), lay)))
-        out = _pls_record(est, Xtrain_for_transform, Xt, ux, uy)
+        Xfit = tl.tensor(layout(X.copy(), lay))
+        Yfit = Xfit if (c.get("dat") == "selfy" and extra) else tl.tensor(layout(Y.copy(), lay))   # selfy (base fit): the very same object
+        est = invoke(_new_pls(c).fit, "pls.fit", {"X": Xfit, "Y": Yfit}, c.get("call", "std"))
+        out = _pls_record(est, Xtrain_for_transform, Xt, ux, uy, c.get("call", "std"))
     except Exception as ex:
         blank.update({"raised": True, "exc": type(ex).__name__, "msg": str(ex)[:120]})
         return (blank, {"raised": True}) if extra else blank
@@ -281,9 +321,16 @@ def _fit_pls(c, X, Y, Xtrain_for_transform, Xt, extra=False, perm=None, kbad=0, 
         x["yscores"] = qy(est.Y_factors[0])
         Xa, Ya = tl.tensor(X.copy()), tl.tensor(Y.copy())
         est.transform(Xa, Ya)
-        xt, yt = est.transform(Xa, Ya)          # second query with the very same arrays: still the fitted scores
+        xt, yt = invoke(est.transform, "pls.transform", {"X": Xa, "Y": Ya}, c.get("call", "std"))          # second query, same arrays
+        x["tnone"] = qx(est.transform(tl.tensor(X.copy()), None))
+        sc = invoke(est.score, "pls.score", {"X": tl.tensor(X.copy()), "Y": tl.tensor(Y.copy())}, c.get("call", "std"))
+        Y2 = np.reshape(Y, (len(Y), -1))
+        pr = np.asarray(est.predict(tl.tensor(X.copy())))
+        x["score"] = qs(float(sc), S6)
+        x["score_def"] = qs(1.0 - float(np.sum((pr - Y2) ** 2)) / float(np.sum((Y2 - np.asarray(est.Y_mean_)) ** 2)), S6)
         x["xt"], x["yt"] = qx(xt), qy(yt)
-        ftx, fty = _new_pls(c).fit_transform(tl.tensor(layout(X.copy(), lay)), tl.tensor(layout(Y.copy(), lay)))
+        ftx, fty = invoke(_new_pls(c).fit_transform, "pls.fit_transform", {"X": tl.tensor(layout(X.copy(), lay)), "Y": tl.tensor(layout(Y.copy(), lay))},
+                          c.get("call", "std"))
         x["ftx"], x["fty"] = qx(ftx), qy(fty)
         for form in ("fortran", "strided"):
             run = {"form": form, "raised": False, "transform": EMPTY, "pred": EMPTY}
@@ -328,6 +375,13 @@ def exec_pls(case):
     X, Xt, C, Y = X * ux, Xt * ux, C * ux, Y * uy
     u = dict(ux=ux, uy=uy)
     ev = {"id": case["id"], "kind": "pls", "cfg": c, "perm": [int(p) for p in perm], "yoff": yoff, "mtest": int(Xt.shape[0])}
+    try:
+        got = _new_pls(c).get_params()
+        tol, nmax, _ = PLSOPT[c["opt"]]
+        want = {"n_components": c["nc"], "tol": tol, "n_iter_max": nmax, "random_state": None, "verbose": False}
+        ev["params_ok"] = bool(list(got) == SIG["CP_PLSR"] and all(got[k] == want[k] for k in want))
+    except Exception:
+        ev["params_ok"] = False
     ev["base"], ev["extra"] = _fit_pls(c, X, Y, X, Xt, extra=True, perm=perm, kbad=c["nc"] + c["ny"], **u)
     ev["shiftx"] = _fit_pls(c, X + C, Y, X + C, Xt + C, **u)           # constant tensor added to every sample (train and new)
     ev["shifty"] = _fit_pls(c, X, Y + float(yoff) * uy, X, Xt, **u)    # constant added to Y: predictions move by the same offset
@@ -344,9 +398,9 @@ def hung_event(case):
     if c["kind"] == "reg":
         return {"id": case["id"], "kind": "reg", "cfg": c, "xnew": {"shape": [1] + list(c["xs"]), "data": [0] * int(np.prod(c["xs"]))},
                 "fit": {"raised": True, "exc": "Timeout"}, "weight": EMPTY, "pred": EMPTY, "vec": EMPTY, "dense": EMPTY,
-                "factors": {"fs": [], "w": []}, "forms": [], "refit": {"raised": True}, "prec": {"wd": 0, "vd": 0, "fdtype": ""}}
+                "factors": {"fs": [], "w": []}, "forms": [], "refit": {"raised": True}, "prec": {"wd": 0, "vd": 0, "fdtype": ""}, "params_ok": True}
     blank = {"raised": True, "exc": "Timeout", "scores": EMPTY, "transform": EMPTY, "loads": [], "yload": EMPTY, "pred": EMPTY}
-    return {"id": case["id"], "kind": "pls", "cfg": c, "perm": list(range(c["n"])), "yoff": 1, "mtest": 4,
+    return {"id": case["id"], "kind": "pls", "cfg": c, "perm": list(range(c["n"])), "yoff": 1, "mtest": 4, "params_ok": True,
             "base": dict(blank), "extra": {"raised": True}, "shiftx": dict(blank), "shifty": dict(blank), "permfit": dict(blank)}
 
 
